@@ -39,7 +39,7 @@ def step (mn mx : Nat) (t : T) (e : Ev) : T × List PortState :=
   | .disabled =>
     match e with
     | .enable => attempt mn mx t
-    | .shutdown => ({ t with mode := .done }, [.shutdown])
+    | .shutdown | .dropAll => ({ t with mode := .done }, [.shutdown])
     | .absent | .lost => ({ t with present := false }, [])
     | .present => ({ t with present := true }, [])
     | .disable | .pause => (t, [])
@@ -49,7 +49,7 @@ def step (mn mx : Nat) (t : T) (e : Ev) : T × List PortState :=
     | .present => attempt mn mx { t with present := true }
     | .lost => ({ t with present := false }, [])
     | .disable => ({ t with mode := .disabled }, [.disabled])
-    | .shutdown => ({ t with mode := .done }, [.shutdown])
+    | .shutdown | .dropAll => ({ t with mode := .done }, [.shutdown])
     | .enable | .pause => (t, [])
   | .open_ =>
     match e with
@@ -58,7 +58,7 @@ def step (mn mx : Nat) (t : T) (e : Ev) : T × List PortState :=
     | .absent => ({ t with present := false }, [])
     | .present => ({ t with present := true }, [])
     | .disable => ({ t with mode := .disabled }, [.disabled])
-    | .shutdown => ({ t with mode := .done }, [.shutdown])
+    | .shutdown | .dropAll => ({ t with mode := .done }, [.shutdown])
     | .enable | .pause => (t, [])
 
 def after (mn mx : Nat) (t : T) (es : List Ev) : T := es.foldl (fun t e => (step mn mx t e).1) t
@@ -79,5 +79,40 @@ def conforms (mn mx : Nat) : Bool → Nat → List PortState → Bool
   | false, k, .wait d :: rest => d == delay mn mx k && conforms mn mx false (k + 1) rest
   | _, k, .disabled :: rest => conforms mn mx false k rest
   | _, _, .shutdown :: rest => rest.isEmpty
+
+/-! ### C13 for the serial channel: which announcement may directly follow which
+
+  `Disabled` first; `Open` only after `Disabled` (the user enabled the channel) or `Wait` (the
+  delay elapsed); `Wait` after `Disabled` / `Wait` (the open failed) or after `Open` (the port was
+  lost); `Disabled` only after `Wait` / `Open` (a disable ended the wait or closed the port);
+  `Shutdown` after anything, nothing after it. Written independently of the task model, like
+  `Spec.Life.legalNext` for the TCP channel. -/
+
+def legalNext : PortState → PortState → Bool
+  | .disabled, .wait _ => true
+  | .disabled, .open_ => true
+  | .disabled, .shutdown => true
+  | .wait _, .wait _ => true
+  | .wait _, .open_ => true
+  | .wait _, .disabled => true
+  | .wait _, .shutdown => true
+  | .open_, .wait _ => true
+  | .open_, .disabled => true
+  | .open_, .shutdown => true
+  | _, _ => false
+
+/-- every adjacent pair of `a :: l` is in `legalNext` -/
+def chain : PortState → List PortState → Bool
+  | _, [] => true
+  | a, b :: rest => legalNext a b && chain b rest
+
+def legalPath : List PortState → Bool
+  | [] => true
+  | a :: rest => chain a rest
+
+/-- `Disabled` first, the path is legal, `Shutdown` exactly once and last -/
+def legalLog (l : List PortState) : Bool :=
+  l.head? == some .disabled && legalPath l && l.count .shutdown == 1 &&
+    l.getLast? == some .shutdown
 
 end Rodbus.Spec.SerialLife
